@@ -11,6 +11,7 @@ import (
 	"strconv"
 	"strings"
 	"sync"
+	"sync/atomic"
 	"time"
 
 	"go/types"
@@ -185,6 +186,10 @@ func cmdCheck(args []string) int {
 		timeout = 90 * time.Second
 	}
 	wd := workDir(*prop + "-" + *tier)
+	if !*keep {
+		// one directory per run: concurrent checks of the same property must not share query files
+		wd = workDir(fmt.Sprintf("%s-%s-%d", *prop, *tier, os.Getpid()))
+	}
 	defer func() {
 		if !*keep {
 			os.RemoveAll(wd)
@@ -378,6 +383,13 @@ func cmdCheck(args []string) int {
 
 	// discharge
 	var wg sync.WaitGroup
+	var retries int32
+	knownNames := map[string]bool{}
+	for _, k := range loadKnownFindings() {
+		if k.Prop == *prop {
+			knownNames[k.Obligation] = true
+		}
+	}
 	sem := make(chan struct{}, 6)
 	for i, r := range results {
 		wg.Add(1)
@@ -402,9 +414,14 @@ func cmdCheck(args []string) int {
 			if r.O.Expect == "sat" {
 				to = 6 * time.Second
 			}
+			if knownNames[r.O.Name] {
+				// a recorded finding is expected to stay undischarged: do not spend the long limits on it
+				to = 10 * time.Second
+			}
 			r.Res = runSolvers(r.Q, file, to, r.O.Expect == "unsat", mt, *tier == "thorough" && r.O.Expect == "unsat", seed)
-			if r.O.Expect == "unsat" && r.Res.Status != "unsat" && r.Res.Status != "sat" {
-				// retry once with a longer limit before calling it undischarged
+			if r.O.Expect == "unsat" && r.Res.Status != "unsat" && r.Res.Status != "sat" && !knownNames[r.O.Name] && atomic.AddInt32(&retries, 1) <= 6 {
+				// retry once with a longer limit before calling it undischarged (at most six
+				// obligations per run: a tree on which many obligations fail is reported promptly)
 				r.Res = runSolvers(r.Q, file, 3*timeout, true, mt, false, seed+1)
 			}
 		}(i, r)
@@ -492,6 +509,12 @@ func cmdCheck(args []string) int {
 			}
 		}
 		if isKnown {
+			continue
+		}
+		if r.Res.Status == "error" {
+			// the solvers could not be run or rejected the query: undecided by a fault of the tooling
+			fmt.Printf("TOOL-ERROR: %s: solver error: %s\n", r.O.Name, strings.TrimSpace(r.Res.Output))
+			toolErr = true
 			continue
 		}
 		violations++
@@ -594,6 +617,9 @@ func cmdCheck(args []string) int {
 	}
 	if violations > 0 {
 		return 1
+	}
+	if toolErr {
+		return 2
 	}
 	return 0
 }
